@@ -26,3 +26,10 @@ CHECKS["C15"] = c("abci", "TestC15", dict(checks=400, timeout=600), dict(checks=
              level_text="Each generated send is delivered in its own block on the real application; the model knows by construction whether it authenticates and covers the fee, and demands "
                         "exact fee movement (once, payer -> fee collector) or no movement at all. Exploration over fee coin sets, single/multisig signers, signature defects, memo and balances.",
              level_note="Message kind restricted to sends so that message effects are known from the result code; required fee taken as the fixed 10000 uPOKT of the default fee multipliers.")
+
+CHECKS["C18"] = c("abci", "TestC18", dict(checks=500, timeout=600), dict(checks=5000, shards=14, timeout=3000),
+             technique="property-based testing of sends on the real application with an exact balance-delta oracle over all accounts",
+             design_ref="DESIGN.md §7 C18",
+             level_text="Generated sends (amounts at the spendable boundary, self, new and module recipients) delivered to the real application; after every DeliverTx the balance "
+                        "delta of every account is compared with the exact expected delta. Exploration.",
+             level_note="Senders are correctly signed funded accounts; fee fixed at the required 10000 uPOKT. Trusts the auth keeper's account iterator for reading balances.")
